@@ -605,6 +605,8 @@ impl AssemblyCode {
                             flags = FlagsState::Y;
                         }
                         AsmMnemonic::DEC | AsmMnemonic::INC => {
+                            // N and Z now describe the memory cell, not a register
+                            flags = FlagsState::Unknown;
                             // A memory cell changes: like a store, any register known to
                             // hold a memory operand (which may alias it) is no longer known
                             if let Some(v) = &accumulator {
@@ -624,6 +626,7 @@ impl AssemblyCode {
                             }
                         }
                         AsmMnemonic::INX | AsmMnemonic::DEX => {
+                            flags = FlagsState::Unknown;
                             if let Some(v) = &accumulator {
                                 if v.ends_with(",X") {
                                     accumulator = None;
@@ -637,6 +640,7 @@ impl AssemblyCode {
                             x_register = None;
                         }
                         AsmMnemonic::INY | AsmMnemonic::DEY => {
+                            flags = FlagsState::Unknown;
                             if let Some(v) = &accumulator {
                                 if v.ends_with(",Y") {
                                     accumulator = None;
@@ -710,6 +714,7 @@ impl AssemblyCode {
                                 accumulator = None;
                             } else {
                                 // Shift/rotate of a memory cell: same as INC/DEC
+                                flags = FlagsState::Unknown;
                                 if let Some(v) = &accumulator {
                                     if !v.starts_with("#") {
                                         accumulator = None;
